@@ -41,16 +41,22 @@ def bound_class(m: Model, it: Interp, cls: ClassRef, base=object, only=None, con
     bases = base if isinstance(base, tuple) else (base,)
     holder = {}
 
+    resolved = {}
+
     def invoke(self_, name, args, kw, after=None):
-        fn, owner = m.method(cls, name, after)
+        key = (name, after)
+        if key not in resolved:
+            fn, owner = m.method(cls, name, after)
+            resolved[key] = (fn, owner)
+            if isinstance(fn, FuncRef) and consulted is not None:
+                consulted.add(m.floc(fn) + f' {fn.qualname}')
+        fn, owner = resolved[key]
         if not isinstance(fn, FuncRef):
             # inherited from outside the repository: the real base class's implementation
             for b in bases:
                 if hasattr(b, name):
                     return getattr(b, name)(self_, *args, **kw)
             raise Raised(f'AttributeError {name}')
-        if consulted is not None:
-            consulted.add(m.floc(fn) + f' {fn.qualname}')
 
         class Sup:
             def __getattribute__(s_, n):
